@@ -683,6 +683,43 @@ func c14Close(c *Ctx, fn *ssa.Function, read *ssa.Call, key func(string) string)
 		}
 	}
 	r.Check(okAll, "C14-K6", shortName(closeFn)+": closes the connection on every path", c.P.pos(closeFn.Pos()), "conn.Close dominates every return", "Close does not close s.conn on every path")
+	// Serve returns through its deferred Close: Close must not wait for anything (handlers may outlive the loop and
+	// may call Close themselves) — no WaitGroup.Wait, channel receive, blocking select or sleep in its closure
+	block := ""
+	var blockPos ssa.Instruction
+	for _, g := range closureOf(c.P, []*ssa.Function{closeFn}) {
+		if !inModule(g) {
+			continue
+		}
+		allInstrs(g, func(in ssa.Instruction) {
+			if block != "" {
+				return
+			}
+			switch x := in.(type) {
+			case *ssa.UnOp:
+				if x.Op == token.ARROW {
+					block, blockPos = "channel receive", in
+				}
+			case *ssa.Select:
+				if x.Blocking {
+					block, blockPos = "blocking select", in
+				}
+			case ssa.CallInstruction:
+				if sf := x.Common().StaticCallee(); sf != nil {
+					switch funcKey(sf) {
+					case "(*sync.WaitGroup).Wait", "time.Sleep", "(*sync.Cond).Wait":
+						block, blockPos = "call of "+funcKey(sf), in
+					}
+				}
+			}
+		})
+	}
+	pos := c.P.pos(closeFn.Pos())
+	if blockPos != nil {
+		pos = c.P.ipos(blockPos)
+	}
+	r.Check(block == "", "C14-K6", shortName(closeFn)+": does not wait", pos, "no blocking operation in Close's closure",
+		"Close blocks ("+block+"): Serve returns through its deferred Close, so it no longer returns when reading fails while a handler is still running, and a handler calling Close deadlocks")
 }
 
 // c14HandlerField: K7 — the function Serve starts per datagram is the handler the caller supplied: every store
